@@ -272,15 +272,15 @@ struct RefEval {
             }
             case SYMENGINE_MUL: {
                 const Mul &m = down_cast<const Mul &>(b);
+                // absolute error propagation (a relative one loses the bound when a factor is exactly 0 by cancellation)
                 Ref r = eval(*m.get_coef());
-                LD rel = r.v != 0 ? r.e / fabsl(r.v) : 0;
                 for (auto &p : m.get_dict()) {
                     Ref f = pow_ref(*p.first, *p.second);
-                    r.v *= f.v;
-                    rel += (f.v != 0 ? f.e / fabsl(f.v) : 0) + EPS;
+                    LD v = r.v * f.v;
+                    r.e = fabsl(r.v) * f.e + fabsl(f.v) * r.e + r.e * f.e + EPS * fabsl(v);
+                    r.v = v;
                     r.ill = r.ill || f.ill;
                 }
-                r.e = rel * fabsl(r.v);
                 return r;
             }
             case SYMENGINE_POW: {
@@ -562,6 +562,13 @@ inline Verdict judge(const Ref &r, double got)
         return v;
     }
     LD scale = std::max(fabsl(r.v), (LD)1e-300L);
+    if (r.v == 0 && r.e == 0) { // exact zero of exact operands
+        if (got != 0) {
+            v.ok = false;
+            v.why = "got=" + tostr(got) + " ref=0 (exact)";
+        }
+        return v;
+    }
     if (r.e > 1e-9L * scale) { // more than ~4e6 ulp of amplified input error: ill-conditioned
         v.discarded = true;
         return v;
